@@ -24,12 +24,17 @@ from fractions import Fraction as Fr
 from .. import common
 
 PROPERTY = "C15"
-LEAN_MODULE = "IsobarV.Props.C15"
+LEAN_MODULE = "IsobarV.Props.C15Mute"
+CHECKER_MODULES = ["IsobarV.Interp.Model", "IsobarV.Interp.Lemmas", "IsobarV.Props.C15", "IsobarV.Interp.Mute", "IsobarV.Props.C15Mute"]
 THEOREMS = ["IsobarV.C15." + t for t in (
     "model_eq_reference", "one_message_per_tick", "curve_closed_form", "first_point_exact", "control_points_exact",
     "within_segment_hull", "within_segment_hull_at", "zero_duration_jump", "zero_duration_first_dropped", "non_numeric_passthrough",
     "constant_numeric_passthrough", "non_control_rejected", "non_control_rejected_later", "messages_only_between_control_events",
-    "count_truncates", "pinterpolate_closed_form", "linear_is_easing", "hold_is_easing")]
+    "count_truncates", "pinterpolate_closed_form", "linear_is_easing", "hold_is_easing",
+    # muting masks, it does not pause (lean/IsobarV/Interp/Mute.lean, lean/IsobarV/Props/C15Mute.lean)
+    "control_points_exact_when_unmuted", "curve_closed_form_when_unmuted", "muted_interpolated_track_is_silent")] + \
+    ["IsobarV.Interp." + t for t in ("runMuted_eq_masked", "muted_tick_is_silent", "unmuted_tick_hears_the_curve", "runMuted_never",
+                                     "length_runMuted")]
 RULE = ("random control tracks: PPQN in {1,2,4,8,10,16,24,96,100,480}; 0-7 control points with int / dyadic-float / decimal-"
         "float / large / negative values, rising, falling and flat; segment lengths 0, 1, 2, a beat, random < 3 beats and "
         "lengths k for which float k/tpb*tpb falls below k; linear and cosine; control/channel numeric, string or None, "
@@ -918,7 +923,27 @@ def muted_curve_cases(ctx):
             continue
         want = [m for m in ref if not (m0 <= m[0] < m1)]
         case = {"tpb": tpb, "values": vals, "durations_beats": durs, "mode": mode, "muted_ticks": [m0, m1], "curve_ticks": total}
-        ctx.case(("muted-curve", repr(case)), nontrivial=True, validated=False, sample=dict(case, messages=len(got)) if i < 2 else None)
+        # the same case through the Lean model (Interp/Mute.lean, `runMuted`: the state machine of the interpolating tick with
+        # the mute flag read in perform_event); theorems C15.control_points_exact_when_unmuted, curve_closed_form_when_unmuted
+        validated = False
+        if ctx.model_available:
+            lines = ["case mc%d" % i, "mode %s" % mode]
+            for v, d in zip(vals, durs):
+                lines.append("pt c %d %d n:7 n:2" % (int(round(d * tpb)), v))
+            lines += ["runmuted 0 0 %d %d %d" % (nticks, m0, m1), "end"]
+            out = ctx.driver("interp", lines)
+            mdl = []
+            for l in out:
+                w = l.split("|")
+                if len(w) == 5 and w[1] == "m":
+                    mdl.append((int(w[0]), float(Fr(w[3]))))
+            validated = True
+            gm = [(m[0], m[2]) for m in got]
+            if len(gm) != len(mdl) or any(a[0] != b[0] or abs(a[1] - b[1]) > 1e-6 for a, b in zip(gm, mdl)):
+                j = next((j for j, (a, b) in enumerate(zip(gm, mdl)) if a[0] != b[0] or abs(a[1] - b[1]) > 1e-6), min(len(gm), len(mdl)))
+                ctx.disagreement("muted curve: the implementation sends %d messages, the model %d; first difference at message %d: %s vs %s"
+                                 % (len(gm), len(mdl), j, gm[j:j + 1], mdl[j:j + 1]), {"suite": "c15-muted", "case": case, "lines": lines})
+        ctx.case(("muted-curve", repr(case)), nontrivial=True, validated=validated, sample=dict(case, messages=len(got)) if i < 2 else None)
         ctx.count("muted-curve:" + mode)
         if got != want:
             j = next((j for j, (x, y) in enumerate(zip(got, want)) if x != y), min(len(got), len(want)))
